@@ -628,19 +628,29 @@ class Duror(Filer):
             db (lmdb._Database): instance of named sub db with dupsort==False
             key (bytes): Apparent effective key
         """
-        result = False
         with self.env.begin(db=sdb, write=True, buffers=True) as txn:
-            iokey = self.suffix(key, 0, sep=sep)  # start at zeroth value for key
-            cursor = txn.cursor()
-            if cursor.set_range(iokey):  # move to val at key >= iokey if any
-                iokey = cursor.key()
-                while iokey:  # end of database iokey == b'' cant internext.
-                    ckey, cion = self.unsuffix(iokey, sep=sep)
-                    if ckey != key:  # past key
-                        break
-                    result = cursor.delete() or result  # delete moves cursor to next item
-                    iokey = cursor.key()  # cursor now at next item after deleted
-            return result
+            return self._remIoValsTxn(txn, key, sep=sep)
+
+
+    def _remIoValsTxn(self, txn, key, *, sep=b'.'):
+        """Deletes all values at apparent effective key inside the open write
+        transaction txn. See remIoVals.
+
+        Returns:
+            result (bool): True if at least one value was deleted at key.
+        """
+        result = False
+        iokey = self.suffix(key, 0, sep=sep)  # start at zeroth value for key
+        cursor = txn.cursor()
+        if cursor.set_range(iokey):  # move to val at key >= iokey if any
+            iokey = cursor.key()
+            while iokey:  # end of database iokey == b'' cant internext.
+                ckey, cion = self.unsuffix(iokey, sep=sep)
+                if ckey != key:  # past key
+                    break
+                result = cursor.delete() or result  # delete moves cursor to next item
+                iokey = cursor.key()  # cursor now at next item after deleted
+        return result
 
 
     def cntIoVals(self, sdb, key, *, sep=b'.'):
@@ -768,9 +778,9 @@ class Duror(Filer):
             key (bytes): Apparent effective key
             vals (abc.Iterable): serialized values to add to set of vals at key
         """
-        self.remIoVals(sdb=sdb, key=key, sep=sep)
         result = False
         with self.env.begin(db=sdb, write=True, buffers=True) as txn:
+            self._remIoValsTxn(txn, key, sep=sep)  # same transaction so pin is atomic
             for i, val in enumerate(vals):  # starts at zero
                 iokey = self.suffix(key, i, sep=sep)  # ion is at add on amount
                 result = txn.put(iokey, val, dupdata=False, overwrite=True)
@@ -871,10 +881,10 @@ class Duror(Filer):
             key (bytes): Apparent effective key
             vals (abc.Iterable): serialized values to add to set of vals at key
         """
-        self.remIoVals(sdb=sdb, key=key, sep=sep)
         result = False
         vals = oset(vals)  # make set
         with self.env.begin(db=sdb, write=True, buffers=True) as txn:
+            self._remIoValsTxn(txn, key, sep=sep)  # same transaction so pin is atomic
             for i, val in enumerate(vals):
                 iokey = self.suffix(key, i, sep=sep)  # ion is at add on amount
                 result = txn.put(iokey, val, dupdata=False, overwrite=True) or result
